@@ -135,9 +135,35 @@ fn ev_bytes(ev: &BigInt) -> [u8; 64] {
     out
 }
 
-fn run_impl(i: &Inp) -> Option<bool> {
+/// What the real function did: returned, panicked, or did not come back within the watchdog
+/// limit (the loop is capped at 1000 iterations of rational arithmetic: on the real code a call
+/// takes milliseconds; a mutant that never leaves the loop early needs minutes per call).
+#[derive(Clone, Copy, PartialEq, Debug)]
+enum Got {
+    Ret(bool),
+    Panic,
+    Timeout,
+}
+const WATCHDOG_SECS: u64 = 30;
+static TIMEOUTS: std::sync::atomic::AtomicUsize = std::sync::atomic::AtomicUsize::new(0);
+
+fn run_impl(i: &Inp) -> Got {
     let (phi, ev, stake, total) = (i.phi, ev_bytes(&i.ev), i.stake, i.total);
-    hc::catch(move || mithril_stm::verif_export::is_lottery_won(phi, ev, stake, total))
+    let (tx, rx) = std::sync::mpsc::channel();
+    std::thread::spawn(move || {
+        let r = std::panic::catch_unwind(move || mithril_stm::verif_export::is_lottery_won(phi, ev, stake, total));
+        let _ = tx.send(match r {
+            Ok(b) => Got::Ret(b),
+            Err(_) => Got::Panic,
+        });
+    });
+    match rx.recv_timeout(std::time::Duration::from_secs(WATCHDOG_SECS)) {
+        Ok(g) => g,
+        Err(_) => {
+            TIMEOUTS.fetch_add(1, std::sync::atomic::Ordering::SeqCst);
+            Got::Timeout
+        }
+    }
 }
 
 /// `(phi_f - 1.0).abs() < f64::EPSILON`, the code's shortcut test
@@ -260,15 +286,17 @@ fn in_domain(i: &Inp) -> bool {
 }
 
 /// The property judged on the implementation's answer, from the inputs only.
-fn judge(item: &Item, got: Option<bool>) -> Verdict {
+fn judge(item: &Item, got: Got) -> Verdict {
     let i = &item.inp;
     let ok = Verdict { holds: Some(true), why: None, known: None };
     let fail = |why: String, known: Option<&str>| Verdict { holds: Some(false), why: Some(why), known: known.map(|s| s.to_string()) };
     if !in_domain(i) {
         return Verdict { holds: None, why: None, known: None };
     }
-    let Some(dec) = got else {
-        return fail("is_lottery_won panicked on an in-domain input".into(), None);
+    let dec = match got {
+        Got::Ret(b) => b,
+        Got::Panic => return fail("is_lottery_won panicked on an in-domain input".into(), None),
+        Got::Timeout => return fail(format!("is_lottery_won did not return within {} s on an in-domain input", WATCHDOG_SECS), None),
     };
     // phi_f = 1: always won
     if i.phi == 1.0 {
@@ -280,7 +308,7 @@ fn judge(item: &Item, got: Option<bool>) -> Verdict {
     }
     // monotonicity against the base input
     if let Some((rel, base)) = &item.base {
-        if let Some(true) = run_impl(base) {
+        if let Got::Ret(true) = run_impl(base) {
             if !dec {
                 return fail(format!("won -> lost flip: base (stake {}, draw {}) wins, this input with {} loses", base.stake, base.ev, rel), None);
             }
@@ -308,12 +336,13 @@ fn judge(item: &Item, got: Option<bool>) -> Verdict {
         return Verdict { holds: None, why: None, known: None };
     }
     let exact_code = if a.is_zero() { Exact::Lost } else { exact_cmp(&i.ev, &exp_rat(&a, &b)) };
-    let x_gt_2 = a > &b * BigInt::from(2u8);
+    // beyond the proved validity range x <= 53/20 of the lost exit (C08_lost_sound)
+    let x_gt_2 = &a * BigInt::from(20u8) > &b * BigInt::from(53u8);
     match (exact_code, dec) {
         (Exact::Won, false) => {
             if x_gt_2 && below_some_lost_threshold(&i.ev, &a, &b) {
                 return fail(
-                    format!("lost although draw/2^512 < 1 - exp(stake/total * c): the 3*term error bound is not a tail bound for x = {:.4} > 2", ratio_f64(&a, &b)),
+                    format!("lost although draw/2^512 < 1 - exp(stake/total * c): the 3*term error bound is not a tail bound for x = {:.4} > 2.65", ratio_f64(&a, &b)),
                     Some(KNOWN_LARGE_X),
                 );
             }
@@ -373,6 +402,7 @@ fn main() {
     let args = hc::parse_args();
     let mut rng = Rng::new(args.seed);
     let mut sink = Sink::new(&args);
+    std::panic::set_hook(Box::new(|_| {})); // expected panics (total = 0, NaN) are observations
     let max = u64::MAX;
     let mut items: Vec<Item> = vec![];
 
@@ -494,14 +524,24 @@ fn main() {
     }
 
     for item in items {
+        // two calls that never came back are enough evidence: stop instead of piling up threads
+        if TIMEOUTS.load(std::sync::atomic::Ordering::SeqCst) >= 2 {
+            break;
+        }
         let Some(id) = sink.wants() else { continue };
         let i = &item.inp;
         let got = run_impl(i);
         let v = judge(&item, got);
         let term = model_term(i);
         let impl_obs = match got {
-            Some(b) => coq::ores_ok(coq::ob(b)),
-            None => coq::ores_panic(),
+            Got::Ret(b) => coq::ores_ok(coq::ob(b)),
+            Got::Panic => coq::ores_panic(),
+            Got::Timeout => coq::ol(&[coq::oz(3)]),
+        };
+        let won_json = match got {
+            Got::Ret(b) => serde_json::json!(b),
+            Got::Panic => serde_json::json!("panic"),
+            Got::Timeout => serde_json::json!("timeout"),
         };
         let x = code_x(i.phi, i.stake, i.total).map(|(a, b)| ratio_f64(&a, &b));
         sink.push(Case {
@@ -511,7 +551,7 @@ fn main() {
                 "phi_f": format!("{:e}", i.phi), "phi_f_bits": format!("{:#018x}", i.phi.to_bits()),
                 "ev": i.ev.to_string(), "ev_over_2^512": ratio_f64(&i.ev, &pow2(512)),
                 "stake": i.stake, "total": i.total, "c": format!("{:e}", code_c(i.phi)), "x": x,
-                "won": got,
+                "won": won_json,
                 "mono_base": item.base.as_ref().map(|(r, b)| serde_json::json!({"relation": r, "stake": b.stake, "ev": b.ev.to_string()})),
             }),
             model: if term.is_empty() { None } else { Some(term) },
